@@ -9,10 +9,12 @@ def eraseQ (q : PQ Item) : PQ Item := { q with items := q.items.map eraseEntry }
 /-- the same scheduler state with every pending action unwrapped -/
 def eraseW (s : St) : St := { s with queue := eraseQ s.queue }
 
-/-- actions that do not raise: no `raise`, no `sleep` of a negative time -/
+/-- actions that do not raise: no `raise`, no `sleep` of a negative time, no re-entrant `advance_to`/`advance_by` that
+could be out of range without being caught by the action -/
 def noRaise : Step → Prop
   | .raise _ => False
   | .sleep t => 0 ≤ t
+  | .ctl c => ∀ clock, ctlRaises clock c = false
   | _ => True
 
 theorem popMinBy_map {β : Type} (lt : β → β → Bool) (g : β → β) (hg : ∀ a b, lt (g a) (g b) = lt a b) :
@@ -81,6 +83,14 @@ theorem exec_erase (w w' : Bool) (a : Act) : ∀ (s s' : St), a.All noRaise → 
     simp only [eraseW] at this ⊢
     injection this with h1 h2 h3 h4 h5 h6 h7 h8
     simp [*]
+  | ctl c rest ih =>
+    intro s s' ha h
+    have hc : ∀ clock, ctlRaises clock c = false := ha.1
+    have h1 := hc s.clock
+    have h2 := hc s'.clock
+    simp only [exec, h1, h2, Bool.false_eq_true, if_false]
+    exact ih _ _ ha.2 h
+
 def eraseIter : Iter → Iter
   | .exit s => .exit (eraseW s)
   | .next x s => .next (eraseItem x) (eraseW s)
